@@ -293,6 +293,26 @@ type fakeDir struct {
 	mu       sync.Mutex
 	children map[string]*fakeLeaf
 	changeID uint64
+
+	// One-shot gate at the entry of VirtualOpenChild.
+	openGateMu sync.Mutex
+	openGate   *gate
+}
+
+func (d *fakeDir) armOpenGate() *gate {
+	g := newGate()
+	d.openGateMu.Lock()
+	d.openGate = g
+	d.openGateMu.Unlock()
+	return g
+}
+
+func (d *fakeDir) disarmOpenGate(g *gate) {
+	d.openGateMu.Lock()
+	if d.openGate == g {
+		d.openGate = nil
+	}
+	d.openGateMu.Unlock()
 }
 
 var _ virtual.Directory = (*fakeDir)(nil)
@@ -324,6 +344,14 @@ func (d *fakeDir) createLeafLocked(name string) *fakeLeaf {
 
 func (d *fakeDir) VirtualOpenChild(ctx context.Context, name path.Component, shareAccess virtual.ShareMask, createAttributes *virtual.Attributes, existingOptions *virtual.OpenExistingOptions, requested virtual.AttributesMask, openedFileAttributes *virtual.Attributes) (virtual.Leaf, virtual.AttributesMask, virtual.ChangeInfo, virtual.Status) {
 	d.w.yield()
+	d.openGateMu.Lock()
+	g := d.openGate
+	d.openGate = nil
+	d.openGateMu.Unlock()
+	if g != nil {
+		close(g.arrived)
+		<-g.release
+	}
 	d.mu.Lock()
 	defer d.mu.Unlock()
 	before := d.changeID
